@@ -515,8 +515,10 @@ class HyReader(Reader):
 
     def read_fcomponents_until(self, closing, prefix, fstring_mode):
         components = []
-        start = self.pos
         while True:
+            # Each literal chunk starts at the next character to be read.
+            line, col = self.pos
+            start = (line, col + 1)
             s, closed = self.read_chars_until(closing, prefix, fstring_mode=fstring_mode)
             if s:
                 components.append(self.fill_pos(String(s), start))
